@@ -81,3 +81,107 @@ T('c01-twin-extra-stmt', 'C01', [(U, "    self.RunInjections(s, allocator)\n    
                                   "    self.RunInjections(s, allocator)\n    debug_tables = list(s.tables)\n    s.ElliminateInternalVariables(assert_full_ellimination=True)\n    s.UnificationsToConstraints()\n    del debug_tables\n\n    if self.annotations.ShouldTypecheck():")])
 T('c01-twin-positional-elim', 'C01', [(U, "    s.ElliminateInternalVariables(assert_full_ellimination=True)\n    s.UnificationsToConstraints()\n\n    if self.annotations.ShouldTypecheck():",
                                        "    s.ElliminateInternalVariables(True)\n    s.UnificationsToConstraints()\n\n    if self.annotations.ShouldTypecheck():")])
+
+# ---------------------------------------------------------------- C18
+M('c18-okinj-orderby', 'C18', [(U, "    if (self.OrderBy(predicate_name) or\n        self.LimitOf(predicate_name) is not None or",
+                                "    if (self.LimitOf(predicate_name) is not None or")], 'C18-R1')
+M('c18-limit-truthy', 'C18', [(U, "    if limit is not None:\n      return ' LIMIT %d' % limit",
+                               "    if limit:\n      return ' LIMIT %d' % limit")], 'C18-R3')
+M('c18-okinj-limit-truthy', 'C18', [(U, "        self.LimitOf(predicate_name) is not None or",
+                                     "        self.LimitOf(predicate_name) or")], 'C18-R3')
+M('c18-inject-unguarded', 'C18', [(U, "            ('distinct_denoted' not in rules[0]) and\n            self.annotations.OkInjection(table_predicate_rsql)):",
+                                   "            ('distinct_denoted' not in rules[0])):")], 'C18-R1')
+M('c18-inject-negated', 'C18', [(U, "            self.annotations.OkInjection(table_predicate_rsql)):",
+                                 "            not self.annotations.OkInjection(table_predicate_rsql)):")], 'C18-R1')
+M('c18-single-no-limit', 'C18', [(U, "          self.annotations.OrderByClause(name) +\n          self.annotations.LimitClause(name))",
+                                  "          self.annotations.OrderByClause(name))")], 'C18-R2')
+M('c18-union-swapped', 'C18', [(U, "          self.annotations.OrderByClause(name),\n          self.annotations.LimitClause(name))",
+                                "          self.annotations.LimitClause(name),\n          self.annotations.OrderByClause(name))")], 'C18-R2')
+M('c18-denotation-key', 'C18', [(PA, "    result['limit_denoted'] = limit_what",
+                                 "    result['limit_denotation'] = limit_what")], 'C18-R4')
+M('c18-annotation-name', 'C18', [(PA, "('limit_denoted', '@Limit')", "('limit_denoted', '@Limits')")], 'C18-R4')
+T('c18-twin-okinj-split', 'C18', [(U, """    if (self.OrderBy(predicate_name) or
+        self.LimitOf(predicate_name) is not None or
+        self.Ground(predicate_name) or self.NoInject(predicate_name) or
+        self.ForceWith(predicate_name)):
+      return False
+    return True""", """    if self.OrderBy(predicate_name):
+      return False
+    limit = self.LimitOf(predicate_name)
+    if limit is not None:
+      return False
+    return not (self.Ground(predicate_name) or self.NoInject(predicate_name) or
+                self.ForceWith(predicate_name))""")])
+T('c18-twin-limit-clause', 'C18', [(U, "    if limit is not None:\n      return ' LIMIT %d' % limit\n    else:\n      return ''",
+                                    "    if limit is None:\n      return ''\n    return ' LIMIT ' + str(limit)")])
+
+# ---------------------------------------------------------------- C19
+M('c19-no-distinct-check', 'C19', [(U, "    self.CheckDistinctConsistency()\n", "")], 'C19-R2')
+M('c19-functor-valueerror', 'C19', [(FU, """    if bad_args:
+      raise FunctorError(""", """    if bad_args:
+      raise ValueError(""")], None)
+M('c19-injected-unassigned-silent', 'C19', [(RT, """          if unassigned_variables:
+            raise RuleCompileException(""", """          if unassigned_variables and False:
+            raise RuleCompileException(""")], None, 'not detectable: guard weakened with a constant')
+M('c19-cli-no-functor-handler', 'C19', [('logica.py', """    except functors.FunctorError as functor_exception:
+      functor_exception.ShowMessage()
+      sys.exit(1)
+""", "")], 'C19-R3')
+M('c19-unmatched-ignored', 'C19', [(PA, """    if status == 'Unmatched':
+      raise ParsingException('Parenthesis matches nothing.', s[idx:idx+1])
+    elif status == 'EOL in string':""", """    if status == 'Unmatched':
+      break
+    elif status == 'EOL in string':""")], 'C19-R1')
+M('c19-swallow-makes', 'C19', [(U, """    self.functors = functors.Functors(rules)
+    self.functors.MakeAll(list(self.annotations.annotations['@Make'].items()))
+    return self.functors.extended_rules""", """    self.functors = functors.Functors(rules)
+    try:
+      self.functors.MakeAll(list(self.annotations.annotations['@Make'].items()))
+    except Exception:
+      pass
+    return self.functors.extended_rules""")], 'C19-R3')
+M('c19-coherence-second-path', 'C19', [(PA, """        'value': {'expression': ParseExpression(expression_str)}
+    })
+    CheckAggregationCoherence(call)
+    return (call, False)""", """        'value': {'expression': ParseExpression(expression_str)}
+    })
+    return (call, False)""")], 'C19-R2')
+M('c19-annotated-objects-unchecked', 'C19', [(U, "    self.CheckAnnotatedObjects(rules)\n", "")], 'C19-R2')
+M('c19-nil-not-diagnosed', 'C19', [(U, """      if must_not_be_nil:
+        raise rule_translate.RuleCompileException(
+          'Single rule is nil for predicate %s. '""", """      if must_not_be_nil:
+        raise AssertionError(
+          'Single rule is nil for predicate %s. '""")], None)
+T('c19-twin-messages', 'C19', [(FU, "'Could not resolve Make order.'", "'Make order could not be resolved.'"),
+                               (PA, "'Parenthesis matches nothing.', s[idx:idx+1])\n    elif status == 'EOL in string':",
+                                "'A parenthesis matches nothing.', s[idx:idx+1])\n    elif status == 'EOL in string':")])
+T('c19-twin-handler-order', 'C19', [('logica.py', """    except rule_translate.RuleCompileException as rule_compilation_exception:
+      rule_compilation_exception.ShowMessage()
+      sys.exit(1)
+    except functors.FunctorError as functor_exception:
+      functor_exception.ShowMessage()
+      sys.exit(1)
+""", """    except functors.FunctorError as functor_exception:
+      functor_exception.ShowMessage()
+      sys.exit(1)
+    except rule_translate.RuleCompileException as rule_compilation_exception:
+      rule_compilation_exception.ShowMessage()
+      sys.exit(2)
+""")])
+
+# ---------------------------------------------------------------- C05
+M('c05-print-mode', 'C05', [(U, "    type_error_checker.CheckForError(mode='raise')", "    type_error_checker.CheckForError(mode='print')")], 'C05-R1')
+M('c05-no-structure-check', 'C05', [(U, "      error_checker.CheckForError('raise')\n", "")], 'C05-R1')
+M('c05-otherwise-unvisited', 'C05', [(INF, "          'condition', 'consequence', 'otherwise']", "          'condition', 'consequence']")], 'C05-R2')
+M('c05-inclusion-pass-dropped', 'C05', [(INF, "    Walk(self.rule, self.ActMindingInclusion)\n", "")], 'C05-R2')
+M('c05-pod-swap', 'C05', [(INF, "reference_algebra.Unify(e['type']['the_type'], reference_algebra.TypeReference('Num'))",
+                           "reference_algebra.Unify(e['type']['the_type'], reference_algebra.TypeReference('Str'))")], 'C05-R4')
+M('c05-raise-to-print', 'C05', [(INF, "        raise TypeErrorCaughtException(self.found_error.NiceMessage())\n      else:\n        assert False",
+                                 "        print(self.found_error.NiceMessage())\n      else:\n        assert False")], 'C05-R1')
+M('c05-ungated-init', 'C05', [(U, "    if self.annotations.ShouldTypecheck():\n      self.typing_preamble = self.RunTypechecker()",
+                               "    if self.annotations.Engine() == 'psql':\n      self.typing_preamble = self.RunTypechecker()")], 'C05-R3')
+M('c05-check-other-rules', 'C05', [(U, "    type_error_checker = infer.TypeErrorChecker(rules)", "    type_error_checker = infer.TypeErrorChecker(rules[:1])")], 'C05-R1')
+T('c05-twin-rename', 'C05', [(U, "    type_error_checker = infer.TypeErrorChecker(rules)\n    type_error_checker.CheckForError(mode='raise')",
+                              "    checker = infer.TypeErrorChecker(rules)\n    checker.CheckForError('raise')")])
+T('c05-twin-fields-tuple', 'C05', [(INF, "  return ['expression', 'left_hand_side', 'right_hand_side',\n          'condition', 'consequence', 'otherwise']",
+                                    "  return ('otherwise', 'expression', 'left_hand_side', 'right_hand_side',\n          'condition', 'consequence')")])
